@@ -138,11 +138,13 @@ def run_suite(V, wd, programs, configs, prop, checks=("link", "boundary", "resul
             if name not in checks:
                 continue
             spec, fn = proj
-            files = []
+            recs = []
             for ti, t in enumerate(traces):
-                recs = list(fn(read_trace(t), results))
-                nevents += len(recs)
-                files += split_trace_files(recs, wd, f"{spec}_{ti}")
+                recs += list(fn(read_trace(t), results))
+            nevents += len(recs)
+            # chunks of bounded size, cut at job boundaries, spread over the TLC processes
+            per = max(4000, min(40000, len(recs) // 12 + 1))
+            files = split_trace_files(recs, wd, f"{spec}", max_events=per)
             if files:
                 viols, consumed, states, _ = validate_parallel(spec, files, wd)
                 V.coverage["states"] += states
